@@ -931,11 +931,30 @@ def engine_suite(tier, seed):
         shutil.rmtree(tdir, ignore_errors=True)
         os.makedirs(tdir)
         env = dict(os.environ, RUSTFLAGS='--cfg a10_verif', CARGO_TARGET_DIR=target, A10_VERIF_TRACE=tdir, CARGO_NET_OFFLINE='true')
-        cmd = ['timeout', '1500', 'cargo', 'test', '--offline', '--test', 'functional']
+        # Build first (no time limit to speak of), then run the tests in their own process group with a
+        # short limit: the suite takes about a second, and whatever it leaves behind (its process tests
+        # spawn `sleep` children) is removed with the group.
+        with open(os.path.join(tdir, 'build.log'), 'w') as log:
+            b = subprocess.run(['timeout', '1500', 'cargo', 'test', '--offline', '--test', 'functional', '--no-run'], cwd=REPO, env=env,
+                               stdin=subprocess.DEVNULL, stdout=log, stderr=subprocess.STDOUT)
+        if b.returncode != 0:
+            res['errors'].append('building the test suite with the hooks failed: %s' % open(os.path.join(tdir, 'build.log'), errors='replace').read()[-300:])
+            break
+        cmd = ['cargo', 'test', '--offline', '--test', 'functional']
         if threads:
             cmd += ['--', '--test-threads', threads]
         with open(os.path.join(tdir, 'cargo.log'), 'w') as log:
-            p = subprocess.run(cmd, cwd=REPO, env=env, stdin=subprocess.DEVNULL, stdout=log, stderr=subprocess.STDOUT)
+            proc = subprocess.Popen(cmd, cwd=REPO, env=env, stdin=subprocess.DEVNULL, stdout=log, stderr=subprocess.STDOUT, start_new_session=True)
+            try:
+                proc.wait(timeout=240)
+            except subprocess.TimeoutExpired:
+                pass
+            try:
+                os.killpg(proc.pid, 9)
+            except OSError:
+                pass
+            proc.wait()
+            p = proc
         text = open(os.path.join(tdir, 'cargo.log'), errors='replace').read()
         if 'error: could not compile' in text or 'error[E' in text:
             res['errors'].append('building the test suite with the hooks failed: %s' % text[-300:])
@@ -1138,6 +1157,68 @@ def engine_posix(tier, seed):
                                'steps': summary['steps'], 'diverged_paths': summary['diverged_paths'], 'crashes': 0})
         if recs:
             break
+    res['wall_s'] = round(time.time() - t0, 1)
+    res['divergences_total'] = len(res['divergences'])
+    if not res['errors']:
+        cache_put(key, res)
+    return res
+
+
+PARKMT_CFG = """SPECIFICATION %(spec)s
+CONSTANTS
+    Futures = %(futures)s
+    SQN = %(sqn)d
+    MaxPolls = %(polls)d
+INVARIANTS
+    NoLostWaker
+%(props)s
+CHECK_DEADLOCK FALSE
+"""
+
+
+def engine_park(tier, seed):
+    """C03 at thread level (submission-slot part): ParkMT.tla (parking futures
+    against wake_blocked_futures, safety and liveness) and the real code under
+    the baton scheduler."""
+    key = 'park-%s-%s-%d' % (tier, tree_hash(), seed)
+    cached = cache_get(key)
+    if cached:
+        cached['cached'] = True
+        return cached
+    t0 = time.time()
+    res = {'engine': 'park', 'tier': tier, 'tlc': [], 'replays': [], 'divergences': [], 'errors': [], 'samples': [],
+           'cached': False}
+    bindir = build_harness()
+    binary = os.path.join(bindir, 'sched_park')
+    models = [dict(futures='{1, 2}', sqn=1, polls=0), dict(futures='{1, 2, 3}', sqn=1, polls=0), dict(futures='{1, 2, 3}', sqn=2, polls=0),
+              dict(futures='{1, 2, 3}', sqn=1, polls=4)]
+    if tier == 'thorough':
+        models += [dict(futures='{1, 2, 3, 4}', sqn=2, polls=0), dict(futures='{1, 2, 3, 4}', sqn=1, polls=5)]
+    for i, m in enumerate(models):
+        live = m['polls'] == 0
+        cfg = write_cfg('parkmt_%d' % i, PARKMT_CFG % dict(m, spec='FairSpec' if live else 'Spec', props='PROPERTIES\n    AllSubmit' if live else ''))
+        r = run_tlc('parkmt_%d' % i, 'MC_ParkMT', cfg, timeout=1800)
+        r['purpose'] = 'contract (%s): %s' % ('NoLostWaker + every future eventually submits, under weak fairness' if live else 'NoLostWaker', m)
+        res['tlc'].append(r)
+        if not r['ok']:
+            res['errors'].append('TLC %s: %s' % (r['name'], r['violated'] or r['error']))
+    runs = [dict(futures=2, sqn=1, polls=2, pre=2, maxexec=100000), dict(futures=2, sqn=2, polls=2, pre=2, maxexec=30000),
+            dict(futures=3, sqn=1, polls=3, pre=1, maxexec=800)]
+    if tier == 'thorough':
+        runs = [dict(futures=2, sqn=1, polls=3, pre=3, maxexec=400000), dict(futures=2, sqn=2, polls=2, pre=3, maxexec=200000),
+                dict(futures=3, sqn=1, polls=3, pre=1, maxexec=10000), dict(futures=3, sqn=2, polls=2, pre=1, maxexec=10000)]
+    for i, rn in enumerate(runs):
+        outdir = os.path.join(BUILD, 'replay', 'park_%d' % i)
+        args = ['--futures', str(rn['futures']), '--sqn', str(rn['sqn']), '--polls', str(rn['polls']), '--preemptions', str(rn['pre']),
+                '--max-exec', str(rn['maxexec'])]
+        rc, recs, summary, err = sched_run(binary, args, outdir, 'C03', 'ParkMT')
+        if summary is None:
+            res['errors'].append('sched_park run %d died (rc %s): %s' % (i, rc, err))
+            continue
+        res['divergences'] += recs
+        res['replays'].append({'model': 'ParkMT/real futures and Ring::poll under the baton scheduler', 'variant': json.dumps(rn), 'paths': summary['paths'],
+                               'steps': summary['steps'], 'diverged_paths': summary['diverged_paths'],
+                               'schedule_space_exhausted': summary.get('complete'), 'crashes': 0})
     res['wall_s'] = round(time.time() - t0, 1)
     res['divergences_total'] = len(res['divergences'])
     if not res['errors']:
